@@ -73,12 +73,23 @@ def outer_sum(qs):
     return T
 
 
-def offsupport_max(A, qs):
-    """Largest |entry| of A outside the charge-conserving support (sum of charges == 0)."""
+def label_modulus(*qs):
+    """Charges held in a narrow / unsigned integer dtype are consistent modulo 2^bits (numpy wraps): 0 = no modulus."""
+    bits = 0
+    for q in qs:
+        if isinstance(q, np.ndarray) and np.issubdtype(q.dtype, np.integer) and q.dtype.itemsize < 8:
+            bits = max(bits, 8 * q.dtype.itemsize)
+    return 0 if bits == 0 else 2 ** bits
+
+
+def offsupport_max(A, qs, modulus=0):
+    """Largest |entry| of A outside the charge-conserving support (sum of charges == 0, modulo `modulus` if given)."""
     A = np.asarray(A)
     mask = outer_sum(qs)
     if mask.shape != A.shape:
         return None
+    if modulus:
+        mask = mask % modulus
     off = np.abs(A[mask != 0])
     return float(off.max()) if off.size else 0.0
 
